@@ -224,6 +224,8 @@ def cvc5_check(smt2, timeout_s=30):
 
 # ---------------------------------------------------------------- sympy
 class SymConv:
+    real_functions = True      # sinh/cosh as the real functions (needed for derivative lemmas); other calls stay uninterpreted
+
     def __init__(self):
         self.atoms = {}
         self.cache = {}
@@ -255,6 +257,8 @@ class SymConv:
         if op == "toreal": return c(a[0])
         if op == "app" and a[0] in ("sqrt",) and len(a) == 2:
             return sympy.sqrt(c(a[1]))
+        if op == "app" and a[0] in ("sinh", "cosh") and len(a) == 2 and self.real_functions:
+            return getattr(sympy, a[0])(c(a[1]))
         if op == "app" and a[0] == "pow" and len(a) == 3 and a[2].op == "num" and a[2].args[0].denominator == 1 and abs(a[2].args[0]) <= 8:
             return c(a[1]) ** int(a[2].args[0])
         if op in ("sym", "select", "app", "trunc", "idiv", "imod", "ite", "ptoi"):
